@@ -680,7 +680,10 @@ class WebSocketResponse(StreamResponse, Generic[_DecodeText]):
                 if not self._closed:
                     self._set_closing(WSCloseCode.OK)
             elif msg.type is WSMsgType.PING and self._autoping:
-                await self.pong(msg.data)
+                # The peer may have stopped reading: the automatic reply is
+                # bounded by the receive timeout as well.
+                async with async_timeout.timeout(receive_timeout or None):
+                    await self.pong(msg.data)
                 continue
             elif msg.type is WSMsgType.PONG and self._autoping:
                 continue
